@@ -96,6 +96,16 @@ fn stream(name: &str) -> Vec<u8> {
             v.extend(rc::message(&msg_of(22, &[1, 131_073, 0, 66_000])));
             v.extend(rc::message(&msg_of(23, &[2])));
         }
+        "s_many" => {
+            // messages of very many tiny frames: whole messages sit complete in the
+            // buffer however the bytes were chunked, nothing follows to nudge the decoder
+            v.extend(rc::ready(b"PUSH", None));
+            let lens: Vec<usize> = (0..1025).map(|i| i % 3).collect();
+            v.extend(rc::message(&msg_of(30, &lens)));
+            v.extend(rc::message(&msg_of(31, &[2])));
+            let lens: Vec<usize> = (0..3000).map(|i| (i % 2) * 1).collect();
+            v.extend(rc::message(&msg_of(32, &lens)));
+        }
         "s_open" => {
             // ends inside a multipart message and inside a frame
             v.extend(rc::ready(b"PUSH", None));
@@ -108,7 +118,7 @@ fn stream(name: &str) -> Vec<u8> {
     v
 }
 
-const CODEC_STREAMS: [&str; 7] = ["s_short", "s_props", "s_noprops", "s_256", "s_big", "s_huge", "s_open"];
+const CODEC_STREAMS: [&str; 8] = ["s_short", "s_props", "s_noprops", "s_256", "s_big", "s_huge", "s_many", "s_open"];
 
 // ------------------------------------------------------- codec-level oracle
 
